@@ -39,8 +39,14 @@ class OutFile(Ghost):
         return False
 
 
-ECHO = []      # ghost console of the current path
-OPENED = []    # ghost files opened for writing on the current path
+def ECHO(E):
+    """ghost console of the path"""
+    return E.ctx.ghost.setdefault("echo", []) if E.symbolic else E.__dict__.setdefault("echo", [])
+
+
+def OPENED(E):
+    """ghost files opened for writing on the path"""
+    return E.ctx.ghost.setdefault("opened", []) if E.symbolic else E.__dict__.setdefault("opened", [])
 
 
 def _install():
@@ -59,7 +65,7 @@ def _install():
 
     def m_codecs_open(I, name, mode="r", encoding=None, **kw):
         f = OutFile(name, mode, encoding)
-        OPENED.append(f)
+        OPENED(I.E).append(f)
         return f
     models.EXTRA_MODELS[codecs.open] = m_codecs_open
     models.EXTRA_MODELS[codecs.decode] = lambda I, x, enc: Seg("codecs.decode", x, enc)
@@ -69,7 +75,7 @@ def _install():
     models.EXTRA_MODELS[sys.exit] = m_exit
 
     def m_echo(I, msg=None, **kw):
-        ECHO.append(msg)
+        ECHO(I.E).append(msg)
     models.EXTRA_MODELS[click.echo] = m_echo
     models.EXTRA_MODELS[click.format_filename] = lambda I, fn, *a: fn
 
@@ -86,7 +92,6 @@ def _install():
                 self.exec_block(st.body, frame)
                 return
             # re-evaluation would repeat side effects: only OutFile is created by a side-effecting model
-            OPENED[:] = [f for f in OPENED if f is not cm]
         return orig_with(self, st, frame)
     engine.Interp.x_With = x_With
 
@@ -95,8 +100,7 @@ _install()
 
 
 def reset_ghosts():
-    ECHO.clear()
-    OPENED.clear()
+    pass
 
 
 # ---------------------------------------------------------------------------------------------
@@ -365,9 +369,10 @@ def _writer_contract(fname):
                 text = fp.written[0] if fp.written else None
             else:
                 yield "returns-file-name", out.value is args[1]
-                good = len(OPENED) == 1 and OPENED[0].name is args[1] and OPENED[0].mode == "w" and OPENED[0].encoding == "utf-8" and len(OPENED[0].written) == 1
+                op = OPENED(E)
+                good = len(op) == 1 and op[0].name is args[1] and op[0].mode == "w" and op[0].encoding == "utf-8" and len(op[0].written) == 1
                 yield "written-once-as-utf-8", good
-                text = OPENED[0].written[0] if good else None
+                text = op[0].written[0] if good else None
             ok = isinstance(text, Seg) and text.key[0] == "_pprint" and text.key[1] is d
             yield "text-is-_pprint(d, options)", ok
             if ok:
@@ -458,7 +463,7 @@ class MessagesLoop(LoopSpec):
     """for v in validation_messages: echo one line, errors += 1"""
 
     def carried(self, E, L, coll):
-        ECHO.clear()
+        ECHO(E).clear()
         e = E.fresh(S.INT, "errors@msg")
         return {"errors": e}
 
@@ -472,17 +477,18 @@ class MessagesLoop(LoopSpec):
 
     def step(self, E, pre, post, elem, case):
         yield "counted-once", S.eq(post["errors"], pre["errors"] + 1)
-        yield "one-line-echoed", len(ECHO) == 1
-        if len(ECHO) == 1:
+        yield "one-line-echoed", len(ECHO(E)) == 1
+        if len(ECHO(E)) == 1:
             fn = post["fn"]
             want = S.concat(fn, " (Line: ", S.to_str(elem["line"]), " Column: ", S.to_str(elem["column"]), ") ", elem["message"], " - ", elem["error"])
-            yield "line-text", S.eq(ECHO[0], want)
+            yield "line-text", S.eq(ECHO(E)[0], want)
 
 
 class FilesLoop(LoopSpec):
     elem_cases = ["*"]
 
     def carried(self, E, L, coll):
+        ECHO(E).clear()
         e, c = E.fresh(S.INT, "errors@file"), E.fresh(S.INT, "count@file")
         E.assume(S.and_(e >= 0, c >= 0))
         return {"errors": e, "validation_count": c}
@@ -505,8 +511,8 @@ class FilesLoop(LoopSpec):
         inc = S.arith("-", post["errors"], pre["errors"])
         yield "errors-never-decrease", inc >= 0
         # which path was taken is visible in the ghost console
-        failed = any(S.sort_of(m) == S.STR and S.truthy(S.endswith(m, " failed to parse successfully")) is True for m in ECHO if m is not None)
-        ok_line = any(S.sort_of(m) == S.STR and S.truthy(S.endswith(m, " validated successfully")) is True for m in ECHO if m is not None)
+        failed = any(S.sort_of(m) == S.STR and S.truthy(S.endswith(m, " failed to parse successfully")) is True for m in ECHO(E) if m is not None)
+        ok_line = any(S.sort_of(m) == S.STR and S.truthy(S.endswith(m, " validated successfully")) is True for m in ECHO(E) if m is not None)
         if failed:
             yield "unparseable-file-counts-as-a-problem", S.eq(inc, 1)
         elif ok_line:
@@ -536,7 +542,7 @@ class CliValidate(Contract):
         reset_ghosts()
         files = E.abslist("all_mapfiles", length=E.int("nfiles"), pytype=list)
         E.assume(files.info["length"] > 0)
-        self._files = files
+        E.__dict__["files"] = files
         return (None, ("pattern",), E.bool("expand"), E.real("version")), {}
 
     def ensures(self, E, case, args, kwargs, out):
@@ -544,7 +550,7 @@ class CliValidate(Contract):
         if not out.raised(SystemExit):
             return
         code = out.exc_args[0]
-        files = self._files
+        files = E.__dict__["files"]
         problems = files.info.get("problems")
         yield "status=min(problems,255)", problems is not None and S.eq(code, S.ite(problems > 255, 255, problems))
         if problems is not None:
@@ -558,8 +564,7 @@ class GetMapfiles(Contract):
     cases = []
 
     def at_call(self, E, mapfiles):
-        from pyvc.api import REGISTRY
-        return REGISTRY["mappyfile.cli.validate"]._files
+        return E.__dict__["files"]
 
 
 @register
@@ -630,9 +635,10 @@ class CliSchema(Contract):
     def ensures(self, E, case, args, kwargs, out):
         _, outp, version = args
         yield "exits-0", out.raised(SystemExit) and out.exc_args[0] == 0
-        good = len(OPENED) == 1 and OPENED[0].name is outp and OPENED[0].mode == "w" and OPENED[0].encoding == "utf-8" and len(OPENED[0].written) == 1
+        op = OPENED(E)
+        good = len(op) == 1 and op[0].name is outp and op[0].mode == "w" and op[0].encoding == "utf-8" and len(op[0].written) == 1
         yield "written-once-as-utf-8", good
         if good:
-            t = OPENED[0].written[0]
+            t = op[0].written[0]
             ok = isinstance(t, Seg) and t.key[0] == "json.dumps" and dict(t.key[2]) == {"sort_keys": True, "indent": 4}
             yield "json-of-the-api-schema", ok and isinstance(t.key[1], SchemaGhost) and t.key[1].name[2] is version and t.key[1].name[1] == "map"
